@@ -41,6 +41,7 @@ class Locks:
                 self.pool[bid] = b
         # lock fields of the workspace: payload type string -> [(adt, field)]
         self.fields = {}
+        self.shared = {}
         self.by_payload = defaultdict(list)
         for p, a in fb.adts.items():
             types = a["_crate"].types
@@ -53,7 +54,7 @@ class Locks:
                         if r.get("k") == "adt" and r["adt"] in LOCK_ADTS:
                             break
                         if r.get("k") == "adt" and r.get("c"):
-                            r = types[r["c"][-1]] if r["adt"].startswith(("alloc::sync::Arc", "core::option::Option", "alloc::boxed::Box")) else r
+                            r = types[r["c"][0]] if r["adt"].startswith(("alloc::sync::Arc", "core::option::Option", "alloc::boxed::Box")) else r  # first generic argument (the last one is the allocator)
                             if r is row:
                                 break
                         else:
@@ -62,6 +63,9 @@ class Locks:
                         payload = types[r["c"][-1]]["s"] if r.get("c") else "?"
                         self.fields[(p, f["name"])] = payload
                         self.by_payload[payload].append((p, f["name"]))
+                        if row.get("k") == "adt" and row["adt"].startswith("alloc::sync::Arc"):
+                            # an Arc'd lock can be one object behind several fields (Sender.queue / Receiver.queue)
+                            self.shared.setdefault(payload, set()).add("%s.%s" % (p.rsplit("::", 1)[1], f["name"]))
         self._guard_idx = {}
         self._classes_cache = {}
         self.raw = []         # (body, held local, class A, acquiring call, class B, via)
@@ -633,8 +637,74 @@ def run(fb, rep):
         if a != b_ and b_ in graph.get(a, ()):
             rep.exception(R, "%s -> %s" % (a, b_), e["reason"])
     same_instance_order(L, rep)
+    collector_edges(L, rep, graph, sites)
     return L
 
+
+def collector_edges(L, rep, graph, sites):
+    """E5c — locks taken by the collector.  `Trace for Mutex<T>` / `RwLock<T>` *block* on the lock (`self.lock()` / `self.read()`),
+    and tracing is dispatched through `dyn Userdata` / generic `Trace` calls the call graph cannot follow.  A collecting thread
+    holds its own `Thread.context` (and, through `mark_child_roots`, the context of every descendant) for the whole mark phase,
+    so every lock field that some `Trace::trace` visits is acquired *under Thread.context*: the edges `Thread.context -> C` are
+    added for each such class C and the graph is re-checked.  A primitive that holds C and then locks a context (its own
+    thread's: the ancestor's collector holds it) deadlocks against a concurrent collection."""
+    R = "E5c"
+    rep.rule(R, "no lock that the collector takes while tracing is held by code that then locks a thread context")
+    from . import c05
+    fb = L.fb
+    traced = {}
+    for im in fb.impls_of(c05.TRACE):
+        c = im["_crate"]
+        row = c.types[im["self"]]
+        if row.get("k") != "adt" or row["adt"] not in fb.adts:
+            continue
+        adt = fb.adts[row["adt"]]
+        items = {it["name"]: it["path"] for it in im["items"]}
+        tb = fb.body(items["trace"]) if "trace" in items else None
+        if tb is None:
+            continue
+        touched = c05.touched_fields(fb, tb, adt["path"])
+        whole = ("*", "*") in touched
+        for v in adt["variants"]:
+            for f in v["fields"]:
+                if (adt["path"], f["name"]) in L.fields and (whole or (v["name"], f["name"]) in touched):
+                    traced["%s.%s" % (adt["path"].rsplit("::", 1)[1], f["name"])] = tb.id
+    # Arc'd locks of one payload type are (potentially) one lock object: the collector taking one takes the others
+    for payload, group in L.shared.items():
+        if len(group) > 1 and group & set(traced):
+            for g in group:
+                traced.setdefault(g, next(traced[x] for x in group if x in traced))
+    holder = "Thread.context"
+    own = {k for k in traced if k.startswith("Thread.")}
+    cells = sorted(set(traced) - own)
+    rep.floor(R, "lock fields visited by a Trace impl", len(traced), 4)
+    rep.extra["locks_taken_by_the_collector"] = sorted(traced)
+    g2 = {a: set(b_) for a, b_ in graph.items()}
+    for cl in cells:
+        g2.setdefault(holder, set()).add(cl)
+    bad = 0
+    for cl in cells:
+        # is Thread.context reachable from cl ?
+        seen, work = set(), [cl]
+        while work:
+            x = work.pop()
+            if x in seen:
+                continue
+            seen.add(x)
+            # the thread tree's own locks are ordered by the instance orders of E5; follow only non-Thread classes
+            work.extend(y for y in g2.get(x, ()) if not y.startswith("<") and (not y.startswith("Thread.") or y == holder) and x != holder)
+        if holder in seen - {cl}:
+            # first hop for the report
+            hops = [(a, b_) for a in seen for b_ in g2.get(a, ()) if b_ == holder and (a, b_) in sites and not a.startswith("Thread.")]
+            bad += 1
+            for a, b_ in hops[:3]:
+                for bid, where, via in sites[(a, b_)][:4]:
+                    root = bid.split("::{closure")[0]
+                    rep.violation(R, "held-while-locking-context|%s|%s" % (cl, root),
+                                  "%s locks a thread context while holding %s; the collector (which holds that context while marking) blocks on %s when it traces "
+                                  "the cell (%s): a concurrent collection by the thread or an ancestor deadlocks" % (bid, a, cl, traced[cl]), where)
+    if not bad:
+        rep.ok(R, "collector-taken locks %s are never held while a thread context is locked" % cells)
 
 def same_instance_order(L, rep):
     """E5b — the instance orders of the table are about *different* objects (ancestor/descendant).  Two locks of ONE object
